@@ -1435,7 +1435,14 @@ def install_numpy_models(interp):
     def n_linspace(interp, start, stop, num=50, endpoint=True, retstep=False, dtype=None, **kw):
         n = concrete_value(num) if is_sym(num) else num
         if n is None:
-            raise Unsupported("linspace with symbolic num (needs the assembly contract)")
+            # symbolic number of points: case split over the small values feasible on this path (bounded; the bound is
+            # enforced by the contract's `requires`, larger values make the path undecided)
+            for v in range(0, 9):
+                if interp.truth(compare(num, v, "==")):
+                    n = v
+                    break
+            else:
+                raise Unsupported("linspace with a symbolic num outside 0..8")
         n = int(n)
         if n < 0:
             raise PyRaise("ValueError", "Number of samples must be non-negative")
@@ -1451,6 +1458,31 @@ def install_numpy_models(interp):
         out = _maybe_native(out)
         return (out, step) if retstep else out
     register_model(np.linspace, n_linspace)
+
+    def n_geomspace(interp, start, stop, num=50, endpoint=True, dtype=None, **kw):
+        """contract-level model (A2): num points, first = start, last = stop, strictly monotone in between, all of the
+        sign of start/stop; interior points are otherwise unconstrained fresh reals"""
+        n = concrete_value(num) if is_sym(num) else num
+        if n is None:
+            raise Unsupported("geomspace with symbolic num")
+        n = int(n)
+        if interp.truth(Or(compare(start, 0, "=="), compare(stop, 0, "=="))):
+            raise PyRaise("ValueError", "Geometric sequence cannot include zero")
+        if interp.truth(compare(mul(start, stop), 0, "<")):
+            raise Unsupported("geomspace across zero (complex)")
+        out = np.empty(n, dtype=object)
+        path = ctx.PATH
+        for i in range(n):
+            out[i] = path.fresh(f"geom{i}", "r")
+        if n >= 1:
+            out[0] = to_real(start)
+        if n >= 2:
+            out[-1] = to_real(stop)
+        up = compare(start, stop, "<")
+        for i in range(n - 1):
+            path.assume(If(up, compare(out[i], out[i + 1], "<"), If(compare(start, stop, ">"), compare(out[i], out[i + 1], ">"), compare(out[i], out[i + 1], "=="))))
+        return out
+    register_model(np.geomspace, n_geomspace)
 
     def n_searchsorted(interp, a, v, side="left", **kw):
         if isinstance(a, SymSeq):
